@@ -203,3 +203,80 @@ Proof.
   split; [cbn; repeat constructor; cbn; intuition discriminate|].
   vm_compute. repeat split; try reflexivity. discriminate.
 Qed.
+
+(* ---------------------------------------------------------------------------------------------
+   Tie to the code by translation + proof: the functions below are GENERATED on every run from /repo's
+   current Go source (translator/gen_gofuncs.go -> Gen/GoForms.v); the theorems say that the hand-written model the
+   property theorems above are about computes what the generated function computes, for all arguments. *)
+From Coq Require Import String.
+From JK Require Import Base.GoSem Gen.GoForms Proofs.GoTieForms.
+
+(* Keeper.Attest and Keeper.DoReport, generated from the current source (the marking-and-counting loop is a read: is
+   the signer named on the form, the count after marking): nothing is written for an absent form or an unnamed signer;
+   below the minimum only the marked form is stored; at the minimum -- and only there -- the proof height is
+   refreshed (the prover removed) and the form consumed; when the file or the prover is missing at that moment nothing
+   at all is written.  The model's handlers are the interpretations of those events *)
+Theorem C14_code_tie_Attest :
+  forall s creator prover fk h,
+    let fo := aget pkey_eqb (aforms s) (prover, fk) in
+    let named := match fo with Some f => listed f creator | None => false end in
+    let count := match fo with Some f => completes (mark f creator) | None => 0 end in
+    let prs := aget fkey_eqb (files s) fk in
+    let pv := match prs with Some l => GoTieForms.is_some (get_prover s l prover fk) | None => false end in
+    attest s creator prover fk h
+    = match gen_Attest (GoTieForms.is_some fo) named count (min_to_pass s) (GoTieForms.is_some prs) pv h 0, fo with
+      | GVal ([Ev _ []; Ev _ []], true), Some f =>
+          (set_aforms s (aset pkey_eqb (aforms s) (prover, fk) (mark f creator)), ORecorded)
+      | GVal ([Ev _ [hh]; _; _], true), Some _ =>
+          let s1 := set_proofs s (aset pkey_eqb (proofs s) (prover, fk) hh) in
+          (set_aforms s1 (adel pkey_eqb (aforms s1) (prover, fk)), OActed)
+      | _, _ => (s, OIgnored)
+      end.
+Proof. exact attest_is_the_interpretation. Qed.
+Print Assumptions C14_code_tie_Attest.
+
+Theorem C14_code_tie_closed_forms :
+  forall form_found named count min file_found prover_ok h start,
+    gen_Attest form_found named count min file_found prover_ok h start
+    = (if negb (form_found && named) then GVal ([], false)
+       else if count <? min then GVal ([Ev "marks-onto-form"%string []; Ev "store-form"%string []], true)
+       else if negb (file_found && prover_ok) then GVal ([], false)
+       else GVal ([Ev "refresh-last-proven"%string [h]; Ev "set-proof"%string []; Ev "consume-form"%string []], true)) /\
+    gen_DoReport form_found named count min file_found start
+    = (if negb (form_found && named) then GVal ([], false)
+       else if count <? min then GVal ([Ev "marks-onto-form"%string []; Ev "store-form"%string []], true)
+       else if negb file_found then GVal ([], false)
+       else GVal ([Ev "consume-form"%string []; Ev "remove-prover"%string []], true)).
+Proof.
+  intros. exact (conj (gen_Attest_spec form_found named count min file_found prover_ok h start)
+                      (gen_DoReport_spec form_found named count min file_found start)).
+Qed.
+Print Assumptions C14_code_tie_closed_forms.
+
+Theorem C14_code_tie_DoReport :
+  forall s creator prover fk,
+    let fo := aget pkey_eqb (rforms s) (prover, fk) in
+    let named := match fo with Some f => listed f creator | None => false end in
+    let count := match fo with Some f => completes (mark f creator) | None => 0 end in
+    let prs := aget fkey_eqb (files s) fk in
+    do_report s creator prover fk
+    = match gen_DoReport (GoTieForms.is_some fo) named count (min_to_pass s) (GoTieForms.is_some prs) 0, fo, prs with
+      | GVal ([Ev _ []; Ev _ []], true), Some f, _ =>
+          if completes (mark f creator) <? min_to_pass s
+          then (set_rforms s (aset pkey_eqb (rforms s) (prover, fk) (mark f creator)), ORecorded)
+          else match prs with
+               | Some l =>
+                   let s1 := set_rforms s (adel pkey_eqb (rforms s) (prover, fk)) in
+                   match remove_prover l prover with
+                   | None => (s, OPanic)
+                   | Some None => (s1, OActed)
+                   | Some (Some l') =>
+                       let s2 := set_proofs s1 (adel pkey_eqb (proofs s1) (prover, fk)) in
+                       (set_files s2 (aset fkey_eqb (files s2) fk l'), OActed)
+                   end
+               | None => (s, OFail)
+               end
+      | _, _, _ => (s, OFail)
+      end.
+Proof. exact do_report_is_the_interpretation. Qed.
+Print Assumptions C14_code_tie_DoReport.
